@@ -218,6 +218,7 @@ static void gen_prog(u64 seed, std::vector<i64> &out) {
     const bool forest = r.chance(1, 2);
     std::vector<std::vector<unsigned>> shared;
     if (forest) { unsigned ns = 1 + r.below(3); for (unsigned q = 0; q < ns; ++q) { std::vector<unsigned> m; unsigned len = 2 + r.below(3); for (unsigned z = 0; z < len; ++z) m.push_back(1 + r.below(3)); shared.push_back(m); } if (np < 2) np = 2; }
+    const bool zerocol = r.chance(1, 3);   // glyph 0 shares the first letter's FSM column (decided here: some rule templates depend on it)
     const bool fan = r.chance(1, 40);     // one rule re-fires in place up to maxRuleLoop (120..250) times, each time inserting a slot attached to the same parent
     if (fan && nsub == 0) nsub = 1;
     for (unsigned i = 0; i < np; ++i) {
@@ -248,12 +249,15 @@ static void gen_prog(u64 seed, std::vector<i64> &out) {
                 w8(rd.action, RET_ZERO);
             } else
             gen_action(r, len - pk, i < nsub, rd.action, numUser, pk);
+            if (zerocol && i < nsub && pk == 0 && r.chance(1, 10)) {   // "drop what the font cannot show": one slot, deleted, and the action ends on it
+                rd.match = {1}; rd.action = {DELETE, RET_ZERO}; len = 1;
+            }
             if (!getenv("SYN_NOCONS") && r.chance(1, 4)) gen_constraint(r, len, pk, numUser, rd.constraint);
             pd.rules.push_back(rd);
         }
         passes.push_back(pd);
     }
-    SynthHdr h; if (r.chance(1, 3)) { h.flags = 1; h.badlb = r.chance(1, 5); } h.zerocol = r.chance(1, 3); if (r.chance(1, 4)) h.nlb = r.below(nsub + 1); if (r.chance(1, 3)) { unsigned nj = 1 + r.below(2); for (unsigned q = 0; q < 4 * nj; ++q) h.just.push_back(r.below(6)); }
+    SynthHdr h; if (r.chance(1, 3)) { h.flags = 1; h.badlb = r.chance(1, 5); } h.zerocol = zerocol; if (r.chance(1, 4)) h.nlb = r.below(nsub + 1); if (r.chance(1, 3)) { unsigned nj = 1 + r.below(2); for (unsigned q = 0; q < 4 * nj; ++q) h.just.push_back(r.below(6)); }
     encode_prog(passes, nsub, numUser, r.chance(1, 2), r.chance(1, 4), h, out);
 }
 
